@@ -38,6 +38,7 @@ SIGMA_FULL = [
     '      ```json\n',
     '      | a | b |\n',
     '      | 1 |\n',
+    '  | a | b |\n',
     '      | a(b | <x> |\n',
     '      | x \\n| \\1$ |\n',
     '      | t |\\\n',
